@@ -62,6 +62,7 @@ fn main() {
             };
             let mut thorough = std::env::var("VERIF_TIER").map_or(false, |t| t == "thorough");
             let mut sub = None;
+            let mut write_evidence = true;
             let mut i = 3;
             while i < args.len() {
                 match args[i].as_str() {
@@ -69,6 +70,7 @@ fn main() {
                         thorough = args.get(i + 1).map_or(false, |t| t == "thorough");
                         i += 1;
                     }
+                    "--no-evidence" => write_evidence = false,
                     "--sub" => {
                         sub = args.get(i + 1).cloned();
                         i += 1;
@@ -80,7 +82,7 @@ fn main() {
             if p.id == "C08" {
                 jpv::props::c08::arm_call_limit(jpv::props::c08::BULK_CALL_LIMIT);
             }
-            let code = run_prop(p, &RunCfg { seed, thorough }, sub.as_deref());
+            let code = run_prop(p, &RunCfg { seed, thorough, write_evidence }, sub.as_deref());
             std::process::exit(code)
         }
         "replay" => {
